@@ -20,10 +20,11 @@
 (***************************************************************************)
 EXTENDS Naturals, Sequences, FiniteSets, TLC, SequencesExt, FiniteSetsExt
 
-CONSTANTS NTC, TParent, TNest, NestArg, NSC, Meta, SParent, NA, NK, KeyOf, NI
+CONSTANTS NTC, TParent, TNest, NestArg, TClr, NSC, Meta, SParent, NA, NK, KeyOf, NI
 
 \* the class arrangement the executor builds afresh for every replay (cfg: TParent <- ArrTParent ...)
 ArrTParent == <<0, 1, 0>>           \* TA, TB(TA), TC
+ArrTClr    == <<FALSE, TRUE, FALSE>>   \* TB.__init__ begins with clear_true_singleton(): a constructor that resets the registry
 ArrTNest   == <<0, 0, 1>>           \* TC.__init__ constructs TA(NestArg) (a singleton that needs another one: App() -> Config())
 ArrMeta    == <<1, 1, 1, 2>>        \* SA(M1), SB(M1: the same metaclass object), SC(SA), SD(M2: custom key function)
 ArrSParent == <<0, 0, 1, 0>>
@@ -62,13 +63,14 @@ NewInst(T, kind, c, a) ==
 \* C(arg) for a TrueSingleton class
 Post_TNew(T, c, a) ==
   IF T.tinst[c] # 0 THEN {Res(T, FALSE, T.tinst[c])}
-  ELSE IF a \in BadArgs THEN {Res(T, TRUE, 0)}        \* __init__ raised: nothing is registered
-  ELSE LET U == NewInst(T, "t", c, a)
-           n == TNest[c]
-           \* a nested first construction inside __init__: the other class gets its instance now, or keeps the one it has
-           V == IF n = 0 \/ U.tinst[n] # 0 THEN U
-                ELSE LET W == NewInst(U, "t", n, NestArg) IN [W EXCEPT !.tinst[n] = W.ni]
-       IN {Res([V EXCEPT !.tinst[c] = U.ni], FALSE, U.ni)}
+  ELSE LET T0 == IF TClr[c] THEN [T EXCEPT !.tinst = [d \in TC |-> 0]] ELSE T      \* what __init__ does first
+       IN IF a \in BadArgs THEN {Res(T0, TRUE, 0)}        \* __init__ raised: nothing is registered
+          ELSE LET U == NewInst(T0, "t", c, a)
+                   n == TNest[c]
+                   \* a nested first construction inside __init__: the other class gets its instance now, or keeps the one it has
+                   V == IF n = 0 \/ U.tinst[n] # 0 THEN U
+                        ELSE LET W == NewInst(U, "t", n, NestArg) IN [W EXCEPT !.tinst[n] = W.ni]
+               IN {Res([V EXCEPT !.tinst[c] = U.ni], FALSE, U.ni)}
 
 \* clear_true_singleton(C) / clear_true_singleton()  (c = 0)
 Post_TClear(T, c) ==
